@@ -393,7 +393,8 @@ def check_C05(tier, seed):
 
 
 def check_C08(tier, seed):
-    rep = Report("C08", tier, seed, "exploration")
+    rep = Report("C08", tier, seed, "model_checking")
+    mc_dimacs(rep, tier)
     if tier == QUICK:
         parser_runs(rep, "robust", seed + 50, "c08a_", 12, 400)
         parser_runs(rep, "sched", seed + 51, "c08b_", 6, 100)
@@ -549,8 +550,16 @@ DIMACS = "cnf,wcnf,gcnf"
 BOTH = ("Trace_Contract", "Trace_Dimacs")
 
 
+def mc_dimacs(rep, tier):
+    res = tlc_mc("mc_dimacs", "MC_Dimacs", "MC_Dimacs_%s.cfg" % ("quick" if tier == QUICK else "thorough"), timeout=3000,
+                 coverage=False)
+    mc_must_pass(rep, res, "MC_Dimacs")
+    return res
+
+
 def check_C06(tier, seed):
     rep = Report("C06", tier, seed, "model_checking")
+    mc_dimacs(rep, tier)
     res = tlc_mc("mc_digits", "MC_Digits", "MC_Digits_%s.cfg" % ("quick" if tier == QUICK else "thorough"), timeout=2400)
     mc_must_pass(rep, res, "MC_Digits")
     if tier == QUICK:
@@ -564,7 +573,10 @@ def check_C06(tier, seed):
         parser_runs(rep, "bounds", seed, "c06_", 14, 3000, parsers=DIMACS, specs=BOTH)
         parser_runs(rep, "sched", seed + 3, "c06s_", 14, 600, parsers=DIMACS, specs=("Trace_Dimacs",))
         parser_runs(rep, "bounds", seed + 5, "c06r_", 14, 1500, parsers=DIMACS, specs=("Trace_Dimacs",), release=True)
-    rep.cov["rule"] = ("the Dimacs grammar machine (one TLA+ operator per token function, numerals as arbitrary-precision digit "
+    rep.cov["rule"] = ("model: MC_Dimacs runs the machine on every document of up to 4 (quick) / 6 (thorough) chunks over "
+                       "{1,2,3,-,0,blank,LF,c, two header lines} and checks termination, error location, read economy and, "
+                       "for accepted documents, equality with the independent whitespace tokenizer RefRead incl. declared "
+                       "limits; traces: the Dimacs grammar machine (one TLA+ operator per token function, numerals as arbitrary-precision digit "
                        "sequences, type bounds checked by MC_Digits) computes from the input bytes what every call must "
                        "return: documents with numerals on and around every limit (literal type bounds, declared variable / "
                        "clause / group counts incl. 0 = unspecified, u64 weights, 7..9-digit numerals, leading zeros), both "
@@ -580,6 +592,7 @@ def check_C06(tier, seed):
 
 def check_C07(tier, seed):
     rep = Report("C07", tier, seed, "model_checking")
+    mc_dimacs(rep, tier)
     res = tlc_mc("mc_scan", "MC_Scan", "MC_Scan_%s.cfg" % ("quick" if tier == QUICK else "thorough"), timeout=2400)
     mc_must_pass(rep, res, "MC_Scan")
     if tier == QUICK:
